@@ -368,7 +368,9 @@ def run(report: Report, tier: str, only: Optional[str] = None) -> None:
                 continue
             for sh in shapes:
                 cfgs.append((w, version, sh, 'roundtrip'))
-            if tier != 'quick' or (w, version) in ((8, 0), (16, 3), (64, 2)):
+            # versions 2/3 only (where the writer keeps data-range bookkeeping); under 0/1 sharing is accepted and the three
+            # symbolic segment ranges do not finish within minutes
+            if version >= 2 and (tier != 'quick' or (w, version) in ((16, 3), (64, 2))):
                 for sh in SHAPES_HISTORY:
                     cfgs.append((w, version, sh, 'roundtrip'))
     for w in ((8, 64) if tier == 'quick' else widths):
